@@ -366,6 +366,9 @@ WRITERS = {   # who may write the cursor of an input or its counters (confirmed 
     T + 'memory_input<>::restart': 'reset to the iterator saved by a rewind guard', T + 'memory_input<>::rewind_restore': 'whole-iterator restore by the rewind guard',
     T + 'buffer_input<>::rewind_restore': 'whole-iterator restore by the rewind guard', T + 'buffer_input<>::discard': 'moves the data pointer together with the buffer contents; counters untouched',
 }
+WRITER_KINDS = {   # what an allowed writer may write, where the table entry is narrower than "the cursor"
+    T + 'buffer_input<>::discard': ({'counter data ='}, 'the data pointer only (the bytes moved, the position did not): byte, line and column stay what the consumed prefix made them'),
+}
 RESTORE_CALLERS = (TI + 'rewind_guard<',)
 
 
@@ -455,6 +458,10 @@ def analyse_writers(R, kinds, tier):
         ok = q in WRITERS
         R.ob(ok=ok, key=('writer', q))
         if not ok: R.violation('P-writers', q.replace(T, ''), 'writes the cursor of an input (%s) but is not one of the position primitives: a position written here is not a function of the consumed prefix' % ', '.join(sorted(v)), key=('writer', q))
+        if ok and q in WRITER_KINDS and not set(v) <= WRITER_KINDS[q][0]:
+            kinds['writer-kind'] += 1
+            R.ob(ok=False, key=('writer-kind', q))
+            R.violation('P-writers', q.replace(T, ''), 'writes %s; it may write %s' % (', '.join(sorted(set(v) - WRITER_KINDS[q][0])), WRITER_KINDS[q][1]), key=('writer-kind', q))
     for q in sorted(callers):
         if q.startswith('reset:'):
             kinds['restore-caller'] += 1
